@@ -58,6 +58,11 @@ class Check:
     def standalone(self, space_name, payload, viol):
         return None
 
+    def finalize(self, agg):
+        """Cross-case oracle over agg['custom'] = [(space, payload, custom)]: returns violations
+        (dicts with kind, canon, msg, space, payload)."""
+        return []
+
     def selftest(self, agg):
         """Return a list of harness-level vacuity complaints (strings)."""
         return []
@@ -134,7 +139,7 @@ def run_check(pid, tier, seed, only_space=None, collect=False, time_cap=None):
 
     agg = {
         "n": 0, "cases": 0, "nt": set(), "oc": Counter(), "tags": Counter(), "viol": [],
-        "states": set(), "trans": 0, "harness_errors": [], "samples": {}, "extra": {},
+        "states": set(), "trans": 0, "harness_errors": [], "samples": {}, "extra": {}, "custom": [],
     }
     capped = False
 
@@ -154,6 +159,8 @@ def run_check(pid, tier, seed, only_space=None, collect=False, time_cap=None):
             for st in r.get("states", ()):
                 agg["states"].add(st)
             agg["trans"] += r.get("trans", 0)
+            if "custom" in r:
+                agg["custom"].append((space_name, p, r["custom"]))
             for k, v in r.get("extra", {}).items():
                 agg["extra"].setdefault(k, Counter())[v] += 1
             for v in r.get("viol", ()):
@@ -203,6 +210,10 @@ def finish(check, tier, seed, agg, space_info, capped, t0):
             sys.stderr.write("HARNESS ERROR in case %s\n%s\n" % (e.get("payload"), e["harness_error"]))
         write_evidence(check, tier, seed, agg, space_info, capped, t0, 0, {}, note="harness error")
         return 2
+
+    # ---- cross-case oracle (e.g. grouping all cases by hash)
+    for v in check.finalize(agg):
+        agg["viol"].append(v)
 
     # ---- classify violations
     hit = Counter()
